@@ -112,6 +112,8 @@ func c05Job(r *mon.Run, k *world.Key, n int, jr *rand.Rand) {
 		ms[i] = attrValue(jr, jr.IntN(9), pk.Params.Lm)
 	}
 	shape := fmt.Sprintf("key=%s n=%d bits=%v", k.Name, n, bitlens(ms))
+	var warmSig *gabi.CLSignature
+	var warmMs []*big.Int
 	check := func(family, desc string, sig *gabi.CLSignature, msgs []*big.Int, key *world.Key) (lib bool) {
 		r.Distinct(k.Name, n, family, desc)
 		ref := len(msgs) <= len(key.PK.R) && refimpl.CLValid(key.PK, sig, msgs)
@@ -120,6 +122,40 @@ func c05Job(r *mon.Run, k *world.Key, n int, jr *rand.Rand) {
 		if pv != nil {
 			r.PanicSeen(mon.PanicSite(stack))
 			lib = false
+		}
+		// the same verdict must come out when the signature arrives in an object that held (and verified) another signature before,
+		// and a randomised copy of an invalid signature must stay invalid
+		if family == "forged" || family == "alter" {
+			w := &gabi.CLSignature{A: cp(warmSig.A), E: cp(warmSig.E), V: cp(warmSig.V), KeyshareP: cp(warmSig.KeyshareP)}
+			var first, second bool
+			pvw, _ := mon.Try(func() {
+				first = w.Verify(k.PK, warmMs)
+				w.A, w.E, w.V, w.KeyshareP = cp(sig.A), cp(sig.E), cp(sig.V), cp(sig.KeyshareP)
+				second = w.Verify(key.PK, msgs)
+			})
+			if pvw == nil && first {
+				r.Eval(family+"/warm-object", outcome(second, nil))
+				if second != ref {
+					r.Violation("C05/verdict-depends-on-object-history", fmt.Sprintf("a signature placed into an object that verified another signature before gets verdict %v, reference %v (%s: %s)", second, ref, family, desc),
+						map[string]any{"shape": shape, "case": family + ": " + desc, "e": dumpInt(sig.E)})
+				}
+				if !ref && len(msgs) <= len(key.PK.R) {
+					var rz *gabi.CLSignature
+					var okr bool
+					pvr, _ := mon.Try(func() {
+						rz, _ = w.Randomize(key.PK)
+						if rz != nil {
+							okr = rz.Verify(key.PK, msgs)
+						}
+					})
+					if pvr == nil && rz != nil {
+						r.Eval(family+"/randomised-invalid", outcome(okr, nil))
+						if okr && !refimpl.CLValid(key.PK, rz, msgs) {
+							r.Violation("C05/randomised-invalid-signature-accepted", fmt.Sprintf("the randomised copy of an invalid signature verifies (%s: %s)", family, desc), map[string]any{"shape": shape, "case": family + ": " + desc})
+						}
+					}
+				}
+			}
 		}
 		if lib == ref {
 			return
@@ -150,6 +186,7 @@ func c05Job(r *mon.Run, k *world.Key, n int, jr *rand.Rand) {
 	if !check("lib-signature", "fresh", sig, ms, k) {
 		return
 	}
+	warmSig, warmMs = sig, ms
 	cur := sig
 	for i := 0; i < 10; i++ {
 		nx, err := cur.Randomize(pk)
@@ -170,7 +207,7 @@ func c05Job(r *mon.Run, k *world.Key, n int, jr *rand.Rand) {
 		"lo-2": sub(lo, bi(2)), "lo-1": sub(lo, bigOne), "lo": cp(lo), "lo+1": add(lo, bigOne),
 		"first-prime>=lo": nextPrime(lo), "last-prime<=hi": prevPrime(hi), "hi": cp(hi), "hi+1": add(hi, bigOne), "hi+2": add(hi, bi(2)),
 		"first-prime>hi": nextPrime(add(hi, bigOne)), "last-prime<lo": prevPrime(sub(lo, bigOne)),
-		"prime-mid": nextPrime(add(lo, randBig(jr, int(pk.Params.LePrime)-2))),
+		"prime-mid":        nextPrime(add(lo, randBig(jr, int(pk.Params.LePrime)-2))),
 		"prime-upper-band": nextPrime(add(hi, randBig(jr, int(pk.Params.LePrime)-2))),
 		"prime-2x-band":    nextPrime(add(lo, add(pow2(pk.Params.LePrime-1), randBig(jr, int(pk.Params.LePrime)-1)))),
 		"prime-le-2-bits":  nextPrime(add(pow2(pk.Params.Le-3), randBig(jr, 100))),
@@ -224,7 +261,10 @@ func c05Job(r *mon.Run, k *world.Key, n int, jr *rand.Rand) {
 	alt("A+1", func(s *gabi.CLSignature) ([]*big.Int, *world.Key) { s.A.Add(s.A, bigOne); return same(), nil })
 	alt("A negated mod N", func(s *gabi.CLSignature) ([]*big.Int, *world.Key) { s.A.Sub(pk.N, s.A); return same(), nil })
 	alt("A+N", func(s *gabi.CLSignature) ([]*big.Int, *world.Key) { s.A.Add(s.A, pk.N); return same(), nil })
-	alt("e -> next prime", func(s *gabi.CLSignature) ([]*big.Int, *world.Key) { s.E = nextPrime(add(s.E, bi(2))); return same(), nil })
+	alt("e -> next prime", func(s *gabi.CLSignature) ([]*big.Int, *world.Key) {
+		s.E = nextPrime(add(s.E, bi(2)))
+		return same(), nil
+	})
 	alt("e+ord", func(s *gabi.CLSignature) ([]*big.Int, *world.Key) { s.E.Add(s.E, k.Ord); return same(), nil })
 	alt("v+1", func(s *gabi.CLSignature) ([]*big.Int, *world.Key) { s.V.Add(s.V, bigOne); return same(), nil })
 	alt("v-1", func(s *gabi.CLSignature) ([]*big.Int, *world.Key) { s.V.Sub(s.V, bigOne); return same(), nil })
